@@ -114,6 +114,32 @@ Fixpoint suppressed_returns (c : chunk) (anchor : Z) (ops : list op) : Prop :=
       end
   end.
 
+(** The same hypothesis as a decision procedure (run by the harness on the
+    scripts it records; proved sound in proofs/ChunkProofs.v). *)
+Fixpoint suppressed_ok (c : chunk) (anchor : Z) (ops : list op) : bool :=
+  match ops with
+  | [] => true
+  | o :: rest =>
+      let c1 := fst (fst (step c o)) in
+      match o with
+      | Enable =>
+          (enabled c || (bounded_pos c =? anchor)) && suppressed_ok c1 anchor rest
+      | Disable =>
+          suppressed_ok c1 (if enabled c then bounded_pos c else anchor) rest
+      | _ => suppressed_ok c1 anchor rest
+      end
+  end.
+
+(** All hypotheses of the reporting theorem for a chunk and a script: the
+    window lies in the file, nothing was read yet if reporting is on, the file
+    is open, reads are well-formed, suppressed segments return. *)
+Definition hyp_ok (c : chunk) (ops : list op) : bool :=
+  (0 <=? start_byte c) && (0 <=? size c) &&
+  (start_byte c + size c <=? Z.of_nat (length (file c))) &&
+  (0 <=? amount_read c) && (fpos c =? start_byte c + amount_read c) &&
+  negb (closed c) && (negb (enabled c) || (bounded_pos c =? 0)) &&
+  forallb valid_op ops && suppressed_ok c 0 ops.
+
 (** The whole life of one upload body: the request script, then close
     (PutObjectTask / UploadPartTask: [with fileobj as body]). *)
 Definition body_life (first : attempt) (resends : list attempt) : list op :=
